@@ -91,7 +91,43 @@ where
             // Subsequent initialisations happen when syncer re-connects to the network
             // this could have caused a gap in sent heights. This will get sorted out on
             // next [`insert`].
-            self.pending.push(vec![head]);
+            //
+            // If there is no gap, the head (and whatever was waiting for it) is
+            // forwarded right away, otherwise it would stay in `pending` until
+            // some later insert happens above it.
+            if self
+                .last_sent_height
+                .is_some_and(|last_sent_height| head.height() > last_sent_height)
+            {
+                self.pending.push(vec![head]);
+                self.send_ready_pending();
+            }
+        }
+    }
+
+    /// Forward all pending ranges that became adjacent to the last sent height.
+    fn send_ready_pending(&mut self) {
+        let mut i = 0;
+
+        while i < self.pending.len() {
+            let first_pending_height = self.pending[i]
+                .first()
+                .expect("header range shouldn't be empty")
+                .height();
+
+            if self.last_sent_height.map(|height| height + 1) == Some(first_pending_height) {
+                let range = self.pending.swap_remove(i);
+                self.last_sent_height = range.last().map(|header| header.height());
+
+                for header in range {
+                    // no receivers is fine
+                    let _ = self.sender.send(header);
+                }
+
+                i = 0;
+            } else {
+                i += 1;
+            }
         }
     }
 
